@@ -1,6 +1,7 @@
 package props
 
 import (
+	"go/token"
 	"strings"
 
 	"golang.org/x/tools/go/ssa"
@@ -114,6 +115,54 @@ func callableRules(c *Ctx) {
 		asg := P.CallsTo(q.fn, "invoke:reflect.Type.AssignableTo")
 		conv := P.CallsTo(q.fn, "invoke:reflect.Type.ConvertibleTo")
 		q.add("WR", "arguments are validated with AssignableTo", len(asg) >= 1 && len(conv) == 0 && P.InCycle(asg[0]), "AssignableTo in the loop over parameters", asg...)
+		// args[i] is indexed only where len(args) == len(in) was established
+		prm := q.fn.Params[1]
+		idxs := an.AllInstrs(q.fn, func(in ssa.Instruction) bool {
+			ia, ok := in.(*ssa.IndexAddr)
+			return ok && ia.X == ssa.Value(prm)
+		})
+		lenIfs, negs := P.IfsOn(q.fn, func(cond ssa.Value) bool {
+			b, ok := cond.(*ssa.BinOp)
+			if !ok || (b.Op != token.NEQ && b.Op != token.EQL) {
+				return false
+			}
+			isLenArgs := func(v ssa.Value) bool {
+				call, ok := v.(*ssa.Call)
+				if !ok {
+					return false
+				}
+				bi, ok := call.Call.Value.(*ssa.Builtin)
+				return ok && bi.Name() == "len" && call.Call.Args[0] == ssa.Value(prm)
+			}
+			isLen := func(v ssa.Value) bool {
+				call, ok := v.(*ssa.Call)
+				if !ok {
+					return false
+				}
+				bi, ok := call.Call.Value.(*ssa.Builtin)
+				return ok && bi.Name() == "len"
+			}
+			return either(b, isLenArgs, isLen)
+		})
+		oka := len(idxs) > 0 && len(lenIfs) == 1
+		if oka {
+			b := stripNotV(lenIfs[0].Cond).(*ssa.BinOp)
+			eqWhenTrue := b.Op == token.EQL
+			if negs[0] {
+				eqWhenTrue = !eqWhenTrue
+			}
+			es := 1
+			if eqWhenTrue {
+				es = 0
+			}
+			for _, ix := range idxs {
+				if !q.onlyViaEdge(ix, lenIfs[0], es) {
+					oka = false
+				}
+			}
+		}
+		q.add("PATH", "arguments are indexed only after their number was checked against the parameters", oka,
+			pickS(oka, "every args[i] is reachable only through len(args) == len(in)", "args[i] can be indexed on a path that skipped the arity check (e.g. too few arguments for a variadic function with mandatory parameters): Call would panic instead of returning an error"), idxs...)
 		// arity: error iff len(args) != len(in)
 		rets := returnsOf(q.fn)
 		q.add("PATH", "arity mismatch is an error", len(rets) >= 3, "three returns: arity error, assignability error, success", nil)
